@@ -448,8 +448,6 @@ func registerIntrinsics(m *Machine) {
 		"(*log.Logger).Printf", "(*log.Logger).Println", "(*log.Logger).Print", "(*log.Logger).Output", "log.Fatalf", "log.Fatal"} {
 		n := n
 		I[n] = func(m *Machine, fr *frame, a []Value, call *ssa.CallCommon) Value {
-			f := fr.fn.Prog.FuncValue(nil)
-			_ = f
 			return m.zeroResultByName(n)
 		}
 	}
